@@ -192,7 +192,12 @@ func emitYAMLTo(sb *strings.Builder, v any, ind int) {
 			return
 		}
 		for i, k := range x.K {
-			sb.WriteString(pad + jsonQuote(k) + ":")
+			if len(k) > 900 {
+				// implicit keys are limited to 1024 characters: use an explicit key
+				sb.WriteString(pad + "? " + jsonQuote(k) + "\n" + pad + ":")
+			} else {
+				sb.WriteString(pad + jsonQuote(k) + ":")
+			}
 			emitYAMLVal(sb, x.V[i], ind)
 		}
 	case []any:
